@@ -21,7 +21,7 @@ import (
 
 func TestC09Controlled(t *testing.T) {
 	oo := overlapOpts{Gen: dispOpts(), AKinds: []string{"get", "get", "create", "create-gatectx", "close"},
-		BKinds: []string{"close", "close-ancestor", "pclose", "cancel", "same-get", "get", "create"}, GateKind: allGates, ExtraWarm: 3, ExtraScopes: 2}
+		BKinds: []string{"close", "close-ancestor", "pclose", "cancel", "same-get", "get", "create", "same-get-elsewhere", "dependent-get"}, GateKind: allGates, ExtraWarm: 3, ExtraScopes: 2}
 	runOverlapTest(t, "C09", "controlled-schedules",
 		"controlled two-thread programs over the whole operation alphabet: thread A (Get*/CreateScope/Close) is parked at the n-th point where godi calls harness code (constructor entry/exit incl. initializers, ctx.Done() inside CreateScope, an instance's Close() during disposal); thread B runs any operation (resolve same/other identity, CreateScope, Close of the scope/an ancestor/the provider, cancel) to completion or until it blocks; A is released, provider closed; oracle: no panic, no hang, every result is a fully built value or a disposed error, plus the C02 (one instance per scope) and C10 (closed exactly once) ledger oracles over the whole run; non-trivial = A was parked",
 		oo,
